@@ -287,6 +287,32 @@ def case_families(ctx, rseed):
                         ctx.violation("%s:raises:%s" % (label, type(F).__name__), "%s raised %r" % (label, F))
                     ctx.judged(("family", name, which, K.__name__), nontrivial=True,
                                sample={"call": label, "class": K.__name__})
+                # the same library graph without a name (G.name = None, the constructor's 'no name'): whether the family
+                # copes with it is not this property's business, but the caller's object must stay as it is
+                import copy
+                for unnamed in ("None", "deleted"):
+                    G2 = copy.deepcopy(G)
+                    if unnamed == "None":
+                        G2.name = None
+                    else:
+                        try:
+                            del G2.name
+                        except AttributeError:
+                            continue
+                    before = dict(vars(G2)) if hasattr(G2, "__dict__") else None
+                    label = "%s(cnfgen graph whose name is %s)" % (name, unnamed)
+                    try:
+                        fn(G2, *extra, formula_class=K)
+                        ctx.count("unnamed_graph_arguments")
+                    except Exception:       # noqa: BLE001
+                        ctx.count("unnamed_graph_arguments_declined")
+                    if before is not None:
+                        after = dict(vars(G2))
+                        changed = sorted(k for k in set(before) | set(after) if k == "name" and (k in before) != (k in after) or
+                                         (k == "name" and before.get(k) is not after.get(k)))
+                        if changed:
+                            ctx.violation("%s:argument-changed:graph-name" % name, "%s: the caller's graph had %s, afterwards its name is %r"
+                                          % (label, "name None" if unnamed == "None" else "no name attribute", after.get("name", "<missing>")))
     # two-graph families
     _, G, X = graph_pairs(r)[0]
     for which, a, b in (("cnfgen", G, G), ("networkx", X, X), ("mixed", G, X)):
@@ -442,6 +468,76 @@ def workload(tier, seed):
     for i in range(2 if q else 16):
         yield "long_chains", {"rseed": seed * 100 + i}
     yield "nx_attributes", {"rseed": seed}
+    for i in range(2 if q else 40):
+        yield "cli_chains", {"rseed": seed * 100 + i, "count": 24}
+
+
+def case_cli_chains(ctx, rseed, count):
+    """The same bookkeeping through the command line front ends: `cnfgen <formula> -T step -T step ...` (formula object
+    and printed header) and kthlist2pebbling.  Every -T step other than `none` -- a shuffle with every subset of its
+    three switches included -- appears as one numbered entry, in order, after the entries the formula had."""
+    from ..cliharness import cli_formula, run_main
+    r = ctx.rng("c19cli", rseed)
+    bases = [["php", "3", "2"], ["op", "3"], ["and", "2", "1"], ["peb", "pyramid", "1"], ["count", "4", "2"], ["true"], ["randkcnf", "2", "4", "0"]]
+    shuffles = [["shuffle"] + [f for f, on in zip(sw, bits) if on] for bits in itertools.product((0, 1), repeat=3)
+                for sw in (("-p", "-v", "-c"), ("--no-polarity-flips", "--no-variables-permutation", "--no-clauses-permutation"))]
+    other = [["none"], ["flip"], ["xor", "1"], ["or", "2"], ["lift", "1"], ["maj", "1"], ["one", "1"], ["eq", "1"]]
+    for i in range(count):
+        base = r.choice(bases)
+        chain = [list(r.choice(shuffles if r.random() < 0.6 else other)) for _ in range(r.randint(1, 4))]
+        if i < len(shuffles):
+            chain[0] = list(shuffles[i])                # every spelling of every switch subset at least once
+        argv = list(base)
+        for step in chain:
+            argv += ["-T"] + step
+        label = "cnfgen " + " ".join(argv)
+        seed = r.randint(0, 10 ** 6)
+        random.seed(seed)
+        try:
+            F0 = cli_formula("cnfgen", ["cnfgen", "-q"] + base)
+            random.seed(seed)
+            F = cli_formula("cnfgen", ["cnfgen", "-q"] + argv)
+        except BaseException as e:      # noqa: BLE001
+            if isinstance(e, KeyboardInterrupt) or type(e).__name__ == "CaseTimeout":
+                raise
+            ctx.violation("cli-chain:raises:%s" % type(e).__name__, "%s raised %r" % (label, e))
+            continue
+        ctx.count("cli_chains")
+        expected = [st for st in chain if st[0] != "none"]
+        nums = [int(m.group(1)) for k in F.header for m in [re.match(r"^transformation (\d+)$", str(k))] if m]
+        if nums != list(range(1, len(expected) + 1)):
+            ctx.violation("cli-chain:header-transformation-entries", "%s: %d steps other than `none` were asked for, the header numbers "
+                          "its transformation entries %r" % (label, len(expected), nums))
+        keys = [k for k in F.header if not re.match(r"^transformation \d+$", str(k)) and k != "command line"]
+        keys0 = [k for k in F0.header if k != "command line"]
+        if keys != keys0:
+            ctx.violation("cli-chain:header-entries-lost", "%s: the entries of the untransformed formula are %r, afterwards %r" % (label, keys0, keys))
+        elif str(F0.header.get("description", "")) not in str(F.header.get("description", "")):
+            ctx.violation("cli-chain:description-lost", "%s: description %r no longer contains %r" % (label, F.header.get("description"),
+                                                                                                   F0.header.get("description")))
+        # the printed header tells the same story
+        random.seed(seed)
+        o = run_main("cnfgen", argv)
+        if o.exc is None and o.rc in (0, None):
+            printed = [int(m.group(1)) for line in o.out.splitlines() for m in [re.match(r"^c transformation (\d+):", line)] if m]
+            ctx.count("cli_chain_texts")
+            if printed != list(range(1, len(expected) + 1)):
+                ctx.violation("cli-chain:printed-transformation-entries", "%s prints the transformation lines %r for %d steps" % (label, printed, len(expected)))
+        ctx.judged(("cli-chain", tuple(base), tuple(map(tuple, chain))), nontrivial=bool(expected), sample={"command": label})
+    # kthlist2pebbling takes one transformation
+    text = "3\n1 : 0\n2 : 1 0\n3 : 1 2 0\n"
+    for step in shuffles[:8] + [["xor", "2"], ["none"], []]:
+        o = run_main("kthlist2pebbling", list(step), stdin_text=text)
+        ctx.count("cli_chain_texts")
+        if o.exc is not None or o.rc not in (0, None):
+            ctx.violation("cli-chain:kthlist2pebbling:fails", "kthlist2pebbling %s: %r" % (" ".join(step), o))
+            continue
+        printed = [int(m.group(1)) for line in o.out.splitlines() for m in [re.match(r"^c transformation (\d+):", line)] if m]
+        want = [1] if step and step[0] != "none" else []
+        if printed != want:
+            ctx.violation("cli-chain:printed-transformation-entries", "kthlist2pebbling %s prints the transformation lines %r, expected %r"
+                          % (" ".join(step), printed, want))
+        ctx.judged(("cli-chain-k2p", tuple(step)), nontrivial=True, sample={"command": "kthlist2pebbling " + " ".join(step)})
 
 
 def case_long_chains(ctx, rseed):
